@@ -28,7 +28,7 @@ func (env *specEnv) ghostTarget(ex ast.Expr) (string, *Term, bool) {
 		return "", nil, false
 	}
 	a := env.eval(call.Args[0])
-	ts, err := e.flatten(a, fo.Type().(*types.Signature).Params().At(0).Type(), env.state())
+	ts, err := e.flattenArg(a, fo.Type().(*types.Signature).Params().At(0).Type(), env.state())
 	if err != nil || len(ts) != 1 {
 		return "", nil, false
 	}
